@@ -337,6 +337,87 @@ def run_midrun(case):
     return res
 
 
+def run_replay(case):
+    """No two iterations that start from DIFFERENT histories may start from the same generator state (that would replay the
+    innovations of an earlier iteration).  Sessions on one seeded sampler (iterate / save / load / run) under a tape that honours
+    seed / get_state / set_state and is never re-seeded by the harness, plus fresh-sampler resumes from every checkpoint."""
+    from mc import session
+    from mc.pipeline import digest as _dg
+
+    res = Res()
+    cfg = dict(case["cfg"])
+    seqs = session.patterns()[case["patterns"][0]::case["patterns"][1]] if case.get("patterns") else [tuple(case["only"])]
+    for seq in seqs:
+        recs = []
+
+        def on_start(sess, recs=recs):
+            st = sess.p.state
+            recs.append((_dg([st._history["u"], st._history["beta"]]), _dg(list(sess.p.tape.rs.get_state()[1:3])), len(st._history["beta"])))
+
+        s = session.Session(cfg, case["base"], [], reseed=False)
+        s.on_iteration_start = on_start
+        s.run(seq)
+        res.evals += 1
+        res.states += len(recs)
+        res.trans += s.p.events
+        res.traces += 1
+        cc = dict(case, only=list(seq), patterns=None)
+        if s.err is not None:
+            res.bump("aborted_sessions")
+        seen = {}
+        for hist, gen, T in recs:
+            if gen in seen and seen[gen][0] != hist:
+                res.violate("replay:iteration-starts-from-an-earlier-stream-state", f"random_state={cfg.get('random_state')}: the iteration that starts from a history of {T} batches begins with the same generator state as an "
+                            f"earlier iteration that started from {seen[gen][1]} batches: it replays that iteration's innovations (operations after 3 iterations: {' '.join(seq)}; cfg={cfg})", cc)
+                break
+            seen.setdefault(gen, (hist, T))
+        # duplicated prior batches are the visible symptom
+        U = s.p.state._history["u"]
+        for i in range(len(U)):
+            for j in range(i + 1, len(U)):
+                if np.array_equal(U[i], U[j]) and float(s.p.state._history["beta"][j]) == 0.0:
+                    res.violate("replay:duplicated-prior-batch", f"history batches {i + 1} and {j + 1} are identical prior draws (operations {' '.join(seq)}; cfg={cfg})", cc)
+                    break
+        res.outcome(("replay", tuple(sorted((k, repr(v)) for k, v in cfg.items())), seq), nontrivial=any(o[0] in "LR" for o in seq))
+    return res
+
+
+def run_resume_replay(case):
+    """A fresh seeded sampler resuming any checkpoint of a seeded run must not redraw what the interrupted run had already drawn."""
+    res = Res()
+    cfg = dict(case["cfg"])
+    fs = MemFS()
+    with env.quiet(), mounted(fs):
+        with OwnedRandom(7):
+            a, _, c = make_sampler(dict(cfg, save_every=1, output_dir="/memfs/rr", output_label="a"))
+            try:
+                a.run(n_total=c["n_total"], progress=False, save_every=1)
+            except Exception:
+                res.bump("aborted_runs")
+                return res
+        cks = sorted((k for k in fs.files if k.endswith(".state") and not k.endswith("_final.state")), key=lambda s_: int(s_.rsplit("_", 1)[1].split(".")[0]))
+        for path in cks:
+            with OwnedRandom(99):  # whatever the stream of the resuming process is
+                b, _, _ = make_sampler(cfg)
+                try:
+                    b.run(n_total=c["n_total"], progress=False, resume_state_path=path)
+                except Exception:
+                    res.bump("aborted_runs")
+                    continue
+            res.evals += 1
+            res.states += 1
+            res.trans += 1
+            U, B = b.state._history["u"], b.state._history["beta"]
+            cc = dict(case, path=path)
+            dup = [(i, j) for i in range(len(U)) for j in range(i + 1, len(U)) if np.array_equal(U[i], U[j])]
+            if dup:
+                res.violate("replay:duplicated-batch-after-resume", f"random_state={cfg.get('random_state')}: resuming from {path} produced history batches {dup[0][0] + 1} and {dup[0][1] + 1} that are identical: "
+                            f"the resumed run drew again what had already been drawn (cfg={cfg})", cc)
+            res.outcome(("resume-replay", path, tuple(sorted((k, repr(v)) for k, v in cfg.items()))), nontrivial=True)
+    res.traces += 1
+    return res
+
+
 class _NullCtx:
     def __enter__(self):
         return self
@@ -345,7 +426,7 @@ class _NullCtx:
         return False
 
 
-KINDS = {"seq": run_seq, "repro": run_repro, "iterpos": run_iterpos, "midrun": run_midrun}
+KINDS = {"replay": run_replay, "resume_replay": run_resume_replay, "seq": run_seq, "repro": run_repro, "iterpos": run_iterpos, "midrun": run_midrun}
 
 FACTORS = [
     ("sample", ["tpcn", "rwm"]),
@@ -379,4 +460,12 @@ def plan(ctx):
             for k in ("tpcn", "rwm") for r in ("mult", "syst") for ce in (2, 3) for t in ("bimodal", "gauss") for rs in (5, None) for sv in (None, 1, 2)
             if th or (hash((k, r, ce, t, rs, sv)) + ctx.seed) % 3 == 0]
     ctx.explore("seeding-discipline", mid)
+    rp = []
+    for rs_ in (5, None):
+        for cl in (False, True):
+            scfg = dict(n_particles=8, d=1, ess_ratio=2.0, n_total=10 ** 6, eval="scalar", clustering=cl, random_state=rs_)
+            for sh in range(2):
+                rp.append({"kind": "replay", "cfg": scfg, "base": ctx.seed, "patterns": [sh, 2]})
+            rp.append({"kind": "resume_replay", "cfg": dict(n_particles=8, d=2, ess_ratio=3.0, n_total=32, clustering=cl, random_state=rs_)})
+    ctx.explore("no-replayed-innovations", rp)
     ctx.bounds.update({"repro_configs": len(rows), "random_states": [0, 1, 12345]})
